@@ -566,7 +566,7 @@ func main() {
 			packed = append(packed, u)
 		}
 	}
-	casesPer := 10
+	casesPer := 20
 	type prog struct{ us []unitRef }
 	var programs []prog
 	for lo := 0; lo < len(packed); lo += casesPer {
